@@ -7,6 +7,7 @@ from hypothesis import strategies as st  # noqa: F401  (re-exported)
 from . import env
 
 
+import time
 import warnings
 
 warnings.filterwarnings("ignore", category=hypothesis.errors.HypothesisWarning)
@@ -16,7 +17,7 @@ class _Fail(Exception):
     pass
 
 
-def search(strategy, body, seed, max_examples, shrink_calls=400, key=repr):
+def search(strategy, body, seed, max_examples, shrink_calls=300, key=repr, shrink_seconds=40):
     """Run `body(case)` on `max_examples` generated cases.
 
     body returns None (property holds) or a violation dict. Returns (calls, violation|None)
@@ -24,7 +25,7 @@ def search(strategy, body, seed, max_examples, shrink_calls=400, key=repr):
     further executions of the oracle are spent on shrinking (cases beyond that budget are
     answered 'passes' unless they were already seen failing, which keeps Hypothesis' final
     replay consistent)."""
-    state = {"calls": 0, "after_fail": 0, "best": None, "seen_fail": {}}
+    state = {"calls": 0, "after_fail": 0, "best": None, "best_len": 0, "seen_fail": {}, "t_fail": 0.0}
 
     @hypothesis.seed(seed)
     @settings(max_examples=max_examples, database=None, deadline=None, derandomize=False,
@@ -38,10 +39,12 @@ def search(strategy, body, seed, max_examples, shrink_calls=400, key=repr):
         if state["best"] is not None:
             k = key(case)
             if k in state["seen_fail"]:
-                state["best"] = state["seen_fail"][k]
                 failed = True
-            elif state["after_fail"] >= shrink_calls:
-                return
+            elif state["after_fail"] >= shrink_calls or time.time() - state["t_fail"] > shrink_seconds:
+                # budget used up: answer "fails" without running the oracle, so the shrinker
+                # collapses to the trivial case within a few cheap steps and stops; the
+                # reported violation is the smallest REAL failure seen (state["best"])
+                failed = True
             else:
                 state["after_fail"] += 1
         if not failed:
@@ -51,7 +54,10 @@ def search(strategy, body, seed, max_examples, shrink_calls=400, key=repr):
                 if k is None:
                     k = key(case)
                 state["seen_fail"][k] = v
-                state["best"] = v
+                if state["best"] is None:
+                    state["t_fail"] = time.time()
+                if state["best"] is None or len(k) <= state["best_len"]:
+                    state["best"], state["best_len"] = v, len(k)
                 failed = True
         if failed:
             raise _Fail()  # the only raise site: Hypothesis keys failures by location
